@@ -20,39 +20,6 @@ set_option linter.unusedVariables false
 namespace Ariadne.C01
 open Ariadne Ariadne.Gql Ariadne.ResultTypes Ariadne.Util Ariadne.Pyd Ariadne.Triggers01 Ariadne.C01Plain Ariadne.C01Abs
 
-/-- no `__typename` field carries `@skip` / `@include` (anywhere in the document) -/
-def NoCondTypename (inp : Input) : Bool :=
-  !(anyInDoc inp fun s => match s with
-    | .field _ n dirs _ _ => n == typenameField && hasConditionalDirective dirs
-    | _ => false)
-
-def absOpOK (env : ResultTypes.Env) (o : Operation) (ms : List Nat) : Bool :=
-  match o.name, Validate.rootOf env.schema o with
-  | some n, some tn =>
-    !(o.dirs.any (·.name == Tables.mixinName))
-    && AbsOK env (pascal n) tn o.sid o.sel { marks := ms }
-    && NoShadowedImport env (aClass env (pascal n) tn [] false o.sel)
-    && decide (agfuel o.sel ≤ Triggers01.fuel)
-    && decide (agfuel o.sel ≤ execFuel)
-    && decide (avneed env (pascal n) tn o.sel + 4 ≤ execFuel)
-  | _, _ => false
-
-/-- the marks operation `o` leaves behind (as a set) -/
-def opMarks (env : ResultTypes.Env) (o : Operation) (ms : List Nat) : List Nat :=
-  match o.name, Validate.rootOf env.schema o with
-  | some n, some tn => ms ++ needSids env (pascal n) tn o.sel
-  | _, _ => ms
-
-def absOpsOK (env : ResultTypes.Env) : List Operation → List Nat → Bool
-  | [], _ => true
-  | o :: rest, ms => absOpOK env o ms && absOpsOK env rest (opMarks env o ms)
-
-/-- the region of `C01_partial_abstract` -/
-def AbsInput (inp : Input) : Prop :=
-  (inp.env.frags.isEmpty && schemaOK inp.env.schema && NoCondTypename inp && absOpsOK inp.env inp.ops []) = true
-
-instance (inp : Input) : Decidable (AbsInput inp) := by unfold AbsInput; infer_instance
-
 /-! ### `AbsOK` depends on the marks only as a set -/
 
 theorem contains_congr {ms ms' : List Nat} (h : ∀ m, m ∈ ms ↔ m ∈ ms') : ms.contains = ms'.contains := by
@@ -71,8 +38,8 @@ theorem AbsOK_congr (env : ResultTypes.Env) (cn tn : String) (sid : Nat) (sel : 
   have e2 : (ms ++ needSids env cn tn sel).contains sid = (ms' ++ needSids env cn tn sel).contains sid := congrFun this sid
   simp only [AbsOK, this, e2]
 
-theorem absOpOK_congr (env : ResultTypes.Env) (o : Operation) (ms ms' : List Nat) (h : ∀ m, m ∈ ms ↔ m ∈ ms') :
-    absOpOK env o ms = absOpOK env o ms' := by
+theorem absOpOK_congr (env : ResultTypes.Env) (K F : Nat) (o : Operation) (ms ms' : List Nat) (h : ∀ m, m ∈ ms ↔ m ∈ ms') :
+    absOpOK env K F o ms = absOpOK env K F o ms' := by
   unfold absOpOK
   cases o.name with
   | none => rfl
@@ -92,21 +59,21 @@ theorem opMarks_congr (env : ResultTypes.Env) (o : Operation) (ms ms' : List Nat
     | none => exact h m
     | some tn => simp [List.mem_append, h m]
 
-theorem absOpsOK_congr (env : ResultTypes.Env) : ∀ (ops : List Operation) (ms ms' : List Nat), (∀ m, m ∈ ms ↔ m ∈ ms') →
-    absOpsOK env ops ms = absOpsOK env ops ms'
+theorem absOpsOK_congr (env : ResultTypes.Env) (K F : Nat) : ∀ (ops : List Operation) (ms ms' : List Nat), (∀ m, m ∈ ms ↔ m ∈ ms') →
+    absOpsOK env K F ops ms = absOpsOK env K F ops ms'
   | [], _, _, _ => rfl
   | o :: rest, ms, ms', h => by
-    simp only [absOpsOK, absOpOK_congr env o ms ms' h,
-      absOpsOK_congr env rest _ _ (opMarks_congr env o ms ms' h)]
+    simp only [absOpsOK, absOpOK_congr env K F o ms ms' h,
+      absOpsOK_congr env K F rest _ _ (opMarks_congr env o ms ms' h)]
 
 /-! ### one operation -/
 
-theorem absOpOK_spec {env : ResultTypes.Env} {o : Operation} {ms : List Nat} (h : absOpOK env o ms = true) :
+theorem absOpOK_spec {env : ResultTypes.Env} {K F : Nat} {o : Operation} {ms : List Nat} (h : absOpOK env K F o ms = true) :
     ∃ n tn, o.name = some n ∧ Validate.rootOf env.schema o = some tn ∧
       (o.dirs.any (·.name == Tables.mixinName)) = false ∧
       AbsOK env (pascal n) tn o.sid o.sel { marks := ms } = true ∧
       "BaseModel" ∉ (aClass env (pascal n) tn [] false o.sel).map (·.name) ∧
-      agfuel o.sel ≤ Triggers01.fuel ∧ agfuel o.sel ≤ execFuel ∧ avneed env (pascal n) tn o.sel + 4 ≤ execFuel ∧
+      agfuel o.sel ≤ Triggers01.fuel ∧ agfuel o.sel + K ≤ execFuel ∧ avneed env (pascal n) tn o.sel + 4 + F ≤ execFuel ∧
       opMarks env o ms = ms ++ needSids env (pascal n) tn o.sel := by
   unfold absOpOK at h
   cases hn : o.name with
@@ -119,16 +86,16 @@ theorem absOpOK_spec {env : ResultTypes.Env} {o : Operation} {ms : List Nat} (h 
       obtain ⟨⟨⟨⟨⟨h1, h2⟩, h3⟩, h4⟩, h5⟩, h6⟩ := h
       exact ⟨n, tn, rfl, rfl, h1, h2, NoShadowedImport_baseModel h3, h4, h5, h6, by simp [opMarks, hn, hr]⟩
 
-theorem generate_abs (env : ResultTypes.Env) (o : Operation) (n tn : String) (ms : List Nat)
+theorem generate_abs (env : ResultTypes.Env) (K : Nat) (hfr : C01Mix.FragsOK env K) (o : Operation) (n tn : String) (ms : List Nat)
     (hn : o.name = some n) (hroot : Validate.rootOf env.schema o = some tn)
     (hmix : (o.dirs.any (·.name == Tables.mixinName)) = false)
     (hok : AbsOK env (pascal n) tn o.sid o.sel { marks := ms } = true) (fuel : Nat) (hf : agfuel o.sel ≤ fuel) :
     ∃ out, generate env fuel (.op o) ms = .ok out ∧
       (∀ m, m ∈ out.st.marks ↔ m ∈ ms ++ needSids env (pascal n) tn o.sel) ∧
-      out.classes = aClass env (pascal n) tn [] false o.sel := by
-  obtain ⟨st', hgen, _, hmk⟩ := abs_generation env (pascal n) tn o.sid o.sel { marks := ms } hok fuel hf
+      out.classes = aClass env (pascal n) tn [] false o.sel ∧ out.st.unpacked = [] := by
+  obtain ⟨st', hgen, _, hmk, hup⟩ := abs_generation env K hfr (pascal n) tn o.sid o.sel { marks := ms } hok fuel hf
   refine ⟨{ classes := aClass env (pascal n) tn [] false o.sel,
-            rebuild := ((aClass env (pascal n) tn [] false o.sel).filter classHasForwardRefs).map (·.name), st := st' }, ?_, hmk, rfl⟩
+            rebuild := ((aClass env (pascal n) tn [] false o.sel).filter classHasForwardRefs).map (·.name), st := st' }, ?_, hmk, rfl, hup⟩
   rw [generate_op env fuel o n ms hn]
   have hrun : ((ResultTypes.liftExcept (operationTypeName env (.op o)) >>= fun tn =>
               mixinBases o.dirs >>= fun bases =>
@@ -141,10 +108,10 @@ theorem generate_abs (env : ResultTypes.Env) (o : Operation) (n tn : String) (ms
 
 /-! ### the operations in order -/
 
-theorem runOps_abs (env : ResultTypes.Env) : ∀ (ops : List Operation) (ms msS : List Nat),
-    (∀ m, m ∈ ms ↔ m ∈ msS) → absOpsOK env ops msS = true →
+theorem runOps_abs (env : ResultTypes.Env) (K F : Nat) (hfr : C01Mix.FragsOK env K) : ∀ (ops : List Operation) (ms msS : List Nat),
+    (∀ m, m ∈ ms ↔ m ∈ msS) → absOpsOK env K F ops msS = true →
     ∀ (k : Nat) (o : Operation), ops[k]? = some o →
-      ∃ out mk, (runOps env ops ms)[k]? = some (.ok out) ∧ absOpOK env o mk = true ∧
+      ∃ out mk, (runOps env ops ms)[k]? = some (.ok out) ∧ absOpOK env K F o mk = true ∧ out.st.unpacked = [] ∧
         (∀ m, m ∈ out.st.marks ↔ m ∈ opMarks env o mk) ∧
         (∀ n tn, o.name = some n → Validate.rootOf env.schema o = some tn →
           out.classes = aClass env (pascal n) tn [] false o.sel) ∧
@@ -154,9 +121,9 @@ theorem runOps_abs (env : ResultTypes.Env) : ∀ (ops : List Operation) (ms msS 
   | o0 :: rest, ms, msS, hms, hok, k, o, hk => by
     simp only [absOpsOK, Bool.and_eq_true] at hok
     obtain ⟨hok0, hokr⟩ := hok
-    have hok0' : absOpOK env o0 ms = true := by rw [absOpOK_congr env o0 ms msS hms]; exact hok0
+    have hok0' : absOpOK env K F o0 ms = true := by rw [absOpOK_congr env K F o0 ms msS hms]; exact hok0
     obtain ⟨n, tn, hn, hr, hmix, habs, _, hgf, _, _, hom⟩ := absOpOK_spec hok0'
-    obtain ⟨out0, hgen, hmk0, hcl0⟩ := generate_abs env o0 n tn ms hn hr hmix habs _ hgf
+    obtain ⟨out0, hgen, hmk0, hcl0, hup0⟩ := generate_abs env K hfr o0 n tn ms hn hr hmix habs _ hgf
     have hnext : ∀ m, m ∈ out0.st.marks ↔ m ∈ opMarks env o0 msS := by
       intro m
       rw [hmk0 m, ← hom]
@@ -167,7 +134,7 @@ theorem runOps_abs (env : ResultTypes.Env) : ∀ (ops : List Operation) (ms msS 
     | zero =>
       have : o = o0 := by simpa using hk.symm
       subst this
-      refine ⟨out0, ms, by rw [hrun]; rfl, hok0', by intro m; rw [hmk0 m, hom], ?_, ?_, ?_⟩
+      refine ⟨out0, ms, by rw [hrun]; rfl, hok0', hup0, by intro m; rw [hmk0 m, hom], ?_, ?_, ?_⟩
       · intro n' tn' hn' hr'
         rw [hn] at hn'; rw [hr] at hr'
         cases hn'; cases hr'
@@ -181,8 +148,8 @@ theorem runOps_abs (env : ResultTypes.Env) : ∀ (ops : List Operation) (ms msS 
         exact hm
     | succ k =>
       have hk' : rest[k]? = some o := by simpa using hk
-      obtain ⟨out, mk, h1, h2, h3, hc, h4, h5⟩ := runOps_abs env rest out0.st.marks (opMarks env o0 msS) hnext hokr k o hk'
-      refine ⟨out, mk, by rw [hrun]; simpa using h1, h2, h3, hc, ?_, ?_⟩
+      obtain ⟨out, mk, h1, h2, hu, h3, hc, h4, h5⟩ := runOps_abs env K F hfr rest out0.st.marks (opMarks env o0 msS) hnext hokr k o hk'
+      refine ⟨out, mk, by rw [hrun]; simpa using h1, h2, hu, h3, hc, ?_, ?_⟩
       · intro m hm
         exact h4 m ((hmk0 m).mpr (List.mem_append_left _ hm))
       · intro r hr' out' he m hm
@@ -286,7 +253,8 @@ theorem claimB_abs (inp : Input) (k : Nat) (j : J) (hp : AbsInput inp) (hj : nod
       exact List.getElem?_eq_none_iff.mp hk
     simp only [this]
   | some o =>
-    obtain ⟨out, mk, hk', hok, hmarks, hclass, _, hmono⟩ := runOps_abs inp.env inp.ops [] [] (fun m => Iff.rfl) hops k o hk
+    have hfr0 : C01Mix.FragsOK inp.env 0 := by intro f hf; rw [hfr] at hf; cases hf
+    obtain ⟨out, mk, hk', hok, _, hmarks, hclass, _, hmono⟩ := runOps_abs inp.env 0 0 hfr0 inp.ops [] [] (fun m => Iff.rfl) hops k o hk
     obtain ⟨n, tn, hn, hr, hmix, habs, hbm, hgf, hef, hvf, hom⟩ := absOpOK_spec hok
     -- `out` is what `generate` returned for operation `k`, hence its classes are `aClass`
     have hcls : out.classes = aClass inp.env (pascal n) tn [] false o.sel ∧
@@ -320,8 +288,12 @@ theorem claimB_abs (inp : Input) (k : Nat) (j : J) (hp : AbsInput inp) (hj : nod
           rw [hpenvcls]; exact hbm
         · intro c hc; rw [hpenvcls]; exact hc
         · rw [hpenvcls]; exact hnd
-      obtain ⟨v, hv, he⟩ := abs_roundtrip inp.env (pascal n) tn o.sid o.sel { marks := mk } habs _ hpenv
-        (marksAfter ((runOps inp.env inp.ops []).take (k + 1))) hM _ execFuel hef j hresp hj execFuel hvf
+      have hfrs : inp.env.frags.map (Marks.applyFrag (marksAfter ((runOps inp.env inp.ops []).take (k + 1)))) = inp.env.frags := by
+        rw [hfr]; rfl
+      rw [hfrs] at hresp
+      obtain ⟨v, hv, he⟩ := abs_roundtrip inp.env 0 0 (pascal n) tn o.sid o.sel { marks := mk } habs _
+        (GH.of_nofrags inp.env _ hfr hpenv.agrees hpenv.noBaseModel (by rw [hpenvcls]; simp [aClass])) hpenv.has
+        (marksAfter ((runOps inp.env inp.ops []).take (k + 1))) hM execFuel hef j hresp hj execFuel hvf
       simp only [Bool.not_true, Bool.false_or]
       have : Pyd.validate (pydEnvOf inp (run inp) out) execFuel (.cls (pascal n)) j = .ok v := hv
       rw [this]
